@@ -24,3 +24,40 @@ package core
 //@ func Digester.FromReader
 //@   trusted
 //@   ensures digest: result1 == nil ==> result0.algo == SHA256 && result0.hex == sha256hex(rsrc(rd)) && result0.raw == rawOf(result0.hex)
+
+// ---- torrent metainfo (property C02) ----------------------------------------------------------
+// crcseg(b, lo, n): the piece checksum (CRC32-IEEE) of the n bytes at positions [lo, lo+n) of the
+// backing array b (uninterpreted). npieces / plen are the statement's piece layout.
+//@ specfunc crcseg(b int, lo int, n int) int
+//@ specfunc npieces(n int, p int) int = n == 0 ? 0 : (n - 1) / p + 1
+//@ specfunc plen(n int, p int, k int) int = min(p, n - k * p)
+
+// Assumed: the checksum of a slice is a function of its bytes (its position in the backing array).
+//@ func PieceSum
+//@   trusted
+//@   ensures result == crcseg(base(b), offset(b), len(b))
+
+//@ func calcPieceSumsFromBytes
+//@   requires len(data) <= 4611686018427387904
+//@   ensures bad_piece_length: pieceLength <= 0 ==> result2 != nil
+//@   ensures ok: pieceLength > 0 ==> result2 == nil && result0 == len(data)
+//@   ensures count: pieceLength > 0 ==> len(result1) == npieces(len(data), pieceLength)
+//@   ensures sums: pieceLength > 0 ==> (forall k int :: 0 <= k && k < len(result1) ==> result1[k] == crcseg(base(data), offset(data) + k * pieceLength, plen(len(data), pieceLength, k)))
+//@   loop 0 invariant pos: 0 <= offset && offset == len(pieceSums) * pieceLength && (len(pieceSums) > 0 ==> offset - pieceLength < n) && n == len(data) && n > 0 && pieceLength > 0
+//@   loop 0 invariant fresh_sums: cap(pieceSums) == 0 || fresh(pieceSums)
+//@   loop 0 invariant sums: forall k int :: 0 <= k && k < len(pieceSums) ==> pieceSums[k] == crcseg(base(data), offset(data) + k * pieceLength, plen(n, pieceLength, k))
+
+//@ specfunc crcstream(src int, lo int, n int) int
+
+// The streaming generator: on success the whole remaining stream has been consumed, and the
+// piece sums are the checksums of its consecutive pieceLength-sized pieces (last one shorter).
+//@ func calcPieceSums
+//@   requires blob != nil && 0 <= blob.pos && blob.pos <= blob.size && blob.size <= 4611686018427387904
+//@   modifies blob.pos, every io.Writer.wsrc, every io.Writer.wlo, every io.Writer.whi
+//@   ensures bad_piece_length: pieceLength <= 0 ==> err != nil
+//@   ensures whole_stream: err == nil ==> blob.pos == blob.size && length == blob.size - old(blob.pos)
+//@   ensures count: err == nil ==> len(pieceSums) == npieces(length, pieceLength)
+//@   ensures sums: err == nil ==> (forall k int :: 0 <= k && k < len(pieceSums) ==> pieceSums[k] == crcstream(rsrc(blob), old(blob.pos) + k * pieceLength, plen(length, pieceLength, k)))
+//@   loop 0 invariant pos: pieceLength > 0 && length == blob.pos - old(blob.pos) && length == len(pieceSums) * pieceLength && blob.pos <= blob.size && blob.size == old(blob.size) && 0 <= length
+//@   loop 0 invariant fresh_sums: cap(pieceSums) == 0 || fresh(pieceSums)
+//@   loop 0 invariant sums: forall k int :: 0 <= k && k < len(pieceSums) ==> pieceSums[k] == crcstream(rsrc(blob), old(blob.pos) + k * pieceLength, pieceLength)
